@@ -22,6 +22,9 @@ func GenOverlap(t *rapid.T) *OverlapCase {
 	for i := 0; i < nh; i++ {
 		c.Handlers = append(c.Handlers, genH(t))
 	}
+	if rapid.IntRange(0, 2).Draw(t, "cancels") == 0 {
+		c.CancelEvery = rapid.IntRange(1, 4).Draw(t, "cancelEvery")
+	}
 	np := rapid.IntRange(2, 8).Draw(t, "np")
 	for i := 0; i < np; i++ {
 		c.Publishers = append(c.Publishers, rapid.IntRange(1, 20).Draw(t, "n"))
